@@ -3,6 +3,6 @@ CONTRACTS = list(_C)
 
 MANIFEST = {
     "category": "proof",
-    "text": "The link layer of EM surveys is verified by abstract execution of every path: BaseEMSurvey.metadata.fset stores and persists the metadata on the entity and on every partner its public getters resolve (also when the partner is not cached yet); the receivers/transmitters link setters record the partner's identifier in the shared metadata, and the cached partner is already the new one when that metadata is propagated and afterwards. All class pairs (airborne/ground, TEM/FEM moving loop, tipper receivers/base stations, DC potential/current electrodes), both linking directions, edits through either side with and without a prior partner read, re-linking, re-opening and copying are a bounded stand-in on real workspaces.",
+    "text": "The link layer of EM surveys is verified by abstract execution of every path: BaseEMSurvey.metadata.fset stores and persists the metadata on the entity and on every partner its public getters resolve (also when the partner is not cached yet); the receivers/transmitters link setters record the partner's identifier in the shared metadata, and the cached partner is already the new one when that metadata is propagated and afterwards. All class pairs (airborne/ground, TEM/FEM moving loop, tipper receivers/base stations, DC potential/current electrodes), both linking directions, edits through either side with and without a prior partner read, re-linking, re-opening and copying are a bounded stand-in on real workspaces. The metadata setter is also verified to turn every identifier given as text (plain or braced) into an identifier whatever plain-text entries surround it, and BaseEMSurvey.copy to forward the shared survey parameters but none of the original's partner identifiers to the copy and to copy-and-link the partner (receivers/transmitters and tipper receivers/base stations).",
     "note": "Values are opaque; large-loop tx_id_property renumbering, copy_complement and fetch_metadata's uid conversion are only in the bounded part; one defect (DC electrode caches) was repaired with a fix: commit.",
 }
